@@ -236,7 +236,8 @@ class Simulation:
         self.powerlost = False
         self.crash_op: Op | None = None
         self.deadlock = False
-        self.locks: dict = {}  # inode -> holder actor id
+        self.locks: dict = {}  # flock: inode -> (actor id, fd)   (owned by the open file description)
+        self.plocks: dict = {}  # POSIX lockf: inode -> actor id   (owned by the process)
         self.boost_left = 0
         self.total_faults = 0
         self.tmp_counter = 0
@@ -260,6 +261,17 @@ class Simulation:
         install()
         if not self.actors:
             return
+        _ACTIVE_SIMS.append(self)
+        try:
+            self._run()
+        finally:
+            _ACTIVE_SIMS.remove(self)
+        if FOREIGN_BYPASS:
+            got = list(FOREIGN_BYPASS)
+            FOREIGN_BYPASS.clear()
+            raise HarnessError(f"file operations on the sandbox from a helper thread the seam does not own: {got[:3]}")
+
+    def _run(self):
         for a in self.actors:
             a.pending = Op(a.id, -1, "start")
         if len(self.actors) == 1:
@@ -357,9 +369,14 @@ class Simulation:
             if a.done:
                 continue
             if a.blocked_on is not None and not self.aborting:
-                holder = self.locks.get(a.blocked_on)
-                if holder is not None:
-                    continue
+                if isinstance(a.blocked_on, tuple) and a.blocked_on[0] == "p":
+                    holder = self.plocks.get(a.blocked_on[1])
+                    if holder is not None and holder != a.id:
+                        continue
+                else:
+                    holder = self.locks.get(a.blocked_on)
+                    if holder is not None:
+                        continue
                 a.blocked_on = None
             out.append(a)
         return out
@@ -522,6 +539,9 @@ class Simulation:
         # a dead process's descriptors are closed by the kernel, nothing is flushed
         victims = self.actors if kind == "powerloss" else [a]
         for b in victims:
+            for ino, holder in list(self.plocks.items()):
+                if holder == b.id:
+                    del self.plocks[ino]
             for fd in list(b.fds):
                 try:
                     _real["close"](fd)
@@ -530,11 +550,14 @@ class Simulation:
                 self._drop_fd(b, fd)
 
     def _drop_fd(self, a: Actor, fd: int):
-        a.fds.pop(fd, None)
+        info = a.fds.pop(fd, None)
         self.fdinfo.pop(fd, None)
         for ino, holder in list(self.locks.items()):
             if holder == (a.id, fd):
                 del self.locks[ino]
+        # POSIX semantics: closing ANY descriptor of the file drops the process's record locks on it
+        if info is not None and self.plocks.get(info.get("ino")) == a.id:
+            del self.plocks[info["ino"]]
 
     # ------------------------------------------------------------------ syscalls
     def abspath(self, p) -> str:
@@ -823,6 +846,54 @@ class Simulation:
         self.vtime += max(0.0, float(seconds))
         self.sleeps += 1
         op.outcome = "ok"
+
+    def lockf(self, a: Actor, fd, cmd, length=0, start=0, whence=0):
+        import fcntl
+        if fd not in a.fds:
+            if a.dead:
+                raise SimKilled()
+            return _real["lockf"](fd, cmd, length, start, whence)
+        info = a.fds[fd]
+        ino = info["ino"]
+        op = Op(a.id, a.op_count, "flock", info["path"], None, fd, "posix-UN" if cmd & fcntl.LOCK_UN else "posix-EX")
+        a.op_count += 1
+        if cmd & fcntl.LOCK_UN:
+            kind, en = self.yield_point(a, op)
+            self._lock_directive(a, op, kind)
+            if self.plocks.get(ino) == a.id:
+                del self.plocks[ino]
+            op.outcome = "ok"
+            return None
+        while True:
+            holder = self.plocks.get(ino)
+            if holder is None or holder == a.id:
+                kind, en = self.yield_point(a, op)
+                self._lock_directive(a, op, kind)
+                holder = self.plocks.get(ino)
+                if holder is None or holder == a.id:
+                    break
+                continue
+            if cmd & fcntl.LOCK_NB:
+                kind, en = self.yield_point(a, op)
+                self._lock_directive(a, op, kind)
+                op.outcome = "EAGAIN"
+                raise BlockingIOError(_errno.EAGAIN, "Resource temporarily unavailable")
+            self.probes["lockf_blocked"] += 1
+            a.blocked_on = ("p", ino)
+            if len(self.actors) == 1:
+                raise HarnessError("single actor blocked on a POSIX lock nobody else can hold")
+            nxt = self._pick(a)
+            if nxt is a:
+                a.dead = True
+                raise SimKilled()
+            nxt.sem.release()
+            self._park(a)
+            if self.aborting or a.dead:
+                a.dead = True
+                raise SimKilled()
+        self.plocks[ino] = a.id
+        op.outcome = "ok"
+        return None
 
     def _lock_directive(self, a, op, kind):
         if kind == "realkill":
@@ -1170,7 +1241,7 @@ def _sim_open(file, mode="r", buffering=-1, encoding=None, errors=None, newline=
         path = sim.abspath(file)
     except TypeError:
         return _real["io.open"](file, mode, buffering, encoding, errors, newline, closefd, opener)
-    if not sim.in_scope(path) or opener is not None:
+    if not sim.in_scope(path):
         if sim.record_unscoped:
             sim.unscoped.append((a.id, "open:" + mode, path, None))
         return _real["io.open"](file, mode, buffering, encoding, errors, newline, closefd, opener)
@@ -1181,7 +1252,16 @@ def _sim_open(file, mode="r", buffering=-1, encoding=None, errors=None, newline=
     if "+" in mode:
         flags = (flags & ~os.O_ACCMODE) | os.O_RDWR
     flags |= os.O_CLOEXEC
-    fd = os.open(file, flags, 0o666)  # interposed: a yield point
+    if opener is not None:
+        # as io.open does: the opener obtains the descriptor (it normally calls os.open, which is interposed)
+        fd = opener(os.fspath(file), flags)
+        if not isinstance(fd, int) or fd < 0:
+            raise ValueError(f"opener returned {fd}")
+        if fd not in a.fds:
+            # descriptor obtained around the seam: fall back to a real file object (the audit hook will object if it mutates)
+            return _real["io.open"](fd, mode, buffering, encoding, errors, newline, True)
+    else:
+        fd = os.open(file, flags, 0o666)  # interposed: a yield point
     try:
         st = _real["fstat"](fd)
         if _stat.S_ISDIR(st.st_mode):
@@ -1237,6 +1317,23 @@ def _sim_get_candidate_names():
 
 
 _NAMESEQ = None
+
+
+def _sim_lockf(fd, cmd, len=0, start=0, whence=0):  # noqa: A002
+    a = current_actor()
+    if a is None:
+        return _real["lockf"](fd, cmd, len, start, whence)
+    return a.sim.lockf(a, fd, cmd, len, start, whence)
+
+
+def _sim_fcntl(fd, cmd, arg=0):
+    a = current_actor()
+    if a is not None and fd in a.fds:
+        import fcntl
+        lock_cmds = {getattr(fcntl, n) for n in ("F_SETLK", "F_SETLKW", "F_GETLK", "F_OFD_SETLK", "F_OFD_SETLKW", "F_OFD_GETLK") if hasattr(fcntl, n)}
+        if cmd in lock_cmds:
+            raise HarnessError("fcntl(F_SETLK...) record locks are not modelled by the simulator: no verdict is possible")
+    return _real["fcntl"](fd, cmd, arg)
 
 
 def _sim_flock(fd, operation):
@@ -1299,6 +1396,10 @@ def install():
         import fcntl
         _real["flock"] = fcntl.flock
         fcntl.flock = _sim_flock
+        _real["lockf"] = fcntl.lockf
+        fcntl.lockf = _sim_lockf
+        _real["fcntl"] = fcntl.fcntl
+        fcntl.fcntl = _sim_fcntl
     except ImportError:
         pass
     _installed = True
@@ -1320,6 +1421,8 @@ def uninstall():
     try:
         import fcntl
         fcntl.flock = _real["flock"]
+        fcntl.lockf = _real["lockf"]
+        fcntl.fcntl = _real["fcntl"]
     except ImportError:
         pass
     _installed = False
@@ -1336,8 +1439,29 @@ _AUDIT_NAME = {"os.rename": ("rename", "replace"), "os.remove": ("unlink", "remo
                "os.link": ("link",), "os.symlink": ("symlink",), "os.utime": ("utime",), "open": ("open",)}
 
 
+_ACTIVE_SIMS: list = []
+FOREIGN_BYPASS: list = []
+
+
 def _audit(event, args):
     a = getattr(_tls, "actor", None)
+    if a is None and not getattr(_tls, "harness", 0) and _ACTIVE_SIMS and (event in _AUDIT_MUTATING or event == "open"):
+        # a thread that is neither an actor nor the harness' own: code under test moved file work to a helper thread, where
+        # the seam cannot see it.  If it touches a sandbox, no verdict of this run can be trusted.
+        if threading.current_thread() is not threading.main_thread() and not threading.current_thread().name.startswith("actor-"):
+            try:
+                p0 = args[0]
+                if not isinstance(p0, int):
+                    p0 = os.fspath(p0)
+                    if isinstance(p0, bytes):
+                        p0 = os.fsdecode(p0)
+                    for sim_ in _ACTIVE_SIMS:
+                        if p0.startswith(sim_.root + "/"):
+                            if event != "open" or (len(args) > 2 and isinstance(args[2], int) and args[2] & (os.O_WRONLY | os.O_RDWR | os.O_CREAT)):
+                                FOREIGN_BYPASS.append((event, p0, threading.current_thread().name))
+            except Exception:  # noqa: BLE001
+                pass
+        return
     if a is None or getattr(_tls, "harness", 0):
         return
     if event != "open" and event not in _AUDIT_MUTATING and event not in ("os.listdir", "os.scandir"):
